@@ -107,7 +107,7 @@ def make_case(ctx, fmt, variant, rng):
         hv = _values(hs, rng, variant["hmode"])
         hv["data_set_name"] = name.encode()
         hv["noaa_level_1b_format_version_number"] = [variant["version"]]
-        hv["noaa_spacecraft_identification_code"] = [rng.choice([4, 2, 6, 7, 8, 12, 11, 13])]
+        hv["noaa_spacecraft_identification_code"] = [variant.get("sat_id") or rng.choice([4, 2, 6, 7, 8, 12, 11, 13])]
         hv["count_of_data_records"] = [variant["count"]]
         at = RecordSpec(L["klmAnalogV5" if variant["version"] >= 5 else "klmAnalogV2"])
         av = _values(at, rng, variant["hmode"])
@@ -121,7 +121,7 @@ def make_case(ctx, fmt, variant, rng):
         hs = RecordSpec(L[hname])
         hv = _values(hs, rng, variant["hmode"])
         hv["start_time"] = filegen.pod_timecode(y, doy, msd)
-        hv["noaa_spacecraft_identification_code"] = [rng.choice([2, 4, 6, 7, 8, 1, 5, 3])]
+        hv["noaa_spacecraft_identification_code"] = [variant.get("sat_id") or rng.choice([2, 4, 6, 7, 8, 1, 5, 3])]
         hv["number_of_scans"] = [variant["count"]]
         hv["data_set_name"] = name.encode() + (b"" if variant["epoch"] == 2 else b"  ")
         if variant.get("noname"):
@@ -309,6 +309,15 @@ def variants(ctx, fmt):
         lst.append(dict(base, n=2, count=2, epoch=2, start=(1992, 252, 1000)))
         lst.append(dict(base, n=2, count=2, epoch=2, start=(1994, 319, 86399000)))
         lst.append(dict(base, n=2, count=2, epoch=3, start=(1994, 320, 0)))
+    # PLATFORM SWEEP: one file per spacecraft either family can report, on a date of that spacecraft's life (TIROS-N shares id 1
+    # with NOAA-11 and is told apart by the date: files of 1979 and of the last day of 1981 carry id 1, too); the header field
+    # reads back as written whatever the reader derives from it
+    for k, (sid, _pl, _nm, (yy, dd)) in enumerate(filegen.PLATFORMS[fam]):
+        lst.append(dict(base, n=2, count=2, sat_id=sid, start=(yy, dd, 3600000 + 1000 * k), epoch=filegen.pod_epoch_of(yy, dd),
+                        version=(5 if k % 2 else 2), archive=bool(k % 3 == 1)))
+    if fam == "pod":
+        lst.append(dict(base, n=2, count=2, sat_id=1, start=(1981, 365, 86000000), epoch=1))
+        lst.append(dict(base, n=2, count=2, sat_id=1, start=(1982, 1, 0), epoch=1))
     # the header's record count UNDER-reports the file by several hundred records (a file extended after its header was
     # written): every record that is there is read, whatever the count says
     lst.append(dict(base, n=300, count=rng_n(3) * 10, mode="bit", bit0=ctx.rng.randrange(8 * 64)))
